@@ -127,7 +127,16 @@ def shift(ex, op, a, b):
     x = lift_int(a)
     cb = b if isinstance(b, int) else concrete_int(lift_int(b))
     if cb is None:
-        raise OutOfReach("shift by a symbolic amount")
+        # a symbolic amount: one path per feasible amount 0..63
+        bt = lift_int(b)
+        if ex.fork(bt < 0, "negative shift amount"):
+            ex.raise_builtin(ValueError)
+        for k in range(64):
+            if ex.fork(bt == k, f"shift amount == {k}"):
+                cb = k
+                break
+        else:
+            raise OutOfReach("shift by a symbolic amount of 64 or more")
     if cb < 0:
         ex.raise_builtin(ValueError)
     if op == "<<":
